@@ -99,7 +99,13 @@ fn build(port: u16, threads: usize, sh: Arc<Shared>, slow_teardown: bool, max_he
         let s = format!("{},{}", ctx.params.get("a").unwrap_or("?"), ctx.params.get("b").unwrap_or("?"));
         res.ok(Headers::empty_nodate(), s)
     });
-    b.fallback_route(|_ctx, res| res.send0(&Status::NOT_FOUND, Headers::empty_nodate()));
+    // the fallback gets an EMPTY parameter set (C12): anything left over from an earlier lookup or request shows as a 500
+    b.fallback_route(|ctx, res| {
+        if ctx.params.iter().next().is_some() {
+            return res.ok(Headers::empty_nodate(), "stale-params");
+        }
+        res.send0(&Status::NOT_FOUND, Headers::empty_nodate())
+    });
     let s1 = Arc::clone(&sh);
     b.connection_setup_hook(move |conn| match conn {
         Ok((stream, peer)) => {
